@@ -1,1 +1,211 @@
-import Sb.Model.Trajectory
+/-
+C01 — Trajectory position and duration follow the format definition.
+
+Model: `Sb/Model/Trajectory.lean`, `Sb/Model/Poly.lean` (literal transcription of the C code).
+Spec : `Sb/Spec/Trajectory.lean` (`segmentsOf`, `posAt`, `totalMs`), `Sb/Spec/Bezier.lean`.
+All statements are in exact rational arithmetic with `secExact` (ms / 1000); the float32 rounding of
+the implementation is bounded by the acceptance tolerance of the correspondence run.
+-/
+import Sb.Proofs.TrajPosition
+import Sb.Proofs.Parsing
+
+namespace Sb.C01
+open Sb Sb.Poly Sb.Traj Sb.Spec Sb.Proofs
+
+/-- side-conditions on generated constants -/
+theorem constants : Gen.msecPerSec = 1000 ∧ Gen.angleModulus = 3600 ∧ Gen.angleDivisor = 10 ∧
+    Gen.maxPolyCoeffs = 8 ∧ Gen.facs = [1, 1, 2, 6, 24, 120, 720, 5040] := by decide
+
+/-- `sb_poly_make_bezier` followed by `sb_poly_eval` is the Bernstein-form Bézier curve, for every
+number of control points from 1 to 8 (the format uses 1, 2, 4 and 8) -/
+theorem makeBezier_eq_bernstein (c : List Rat) (u : Rat) (h1 : 1 ≤ c.length) (h8 : c.length ≤ 8) :
+    Poly.eval (makeBezier 1 c) u = bezier c u := bezier_any c u h1 h8
+
+/-- the header fields are exactly those of the format -/
+theorem init_header (buf : Bytes) (tr : Traj) (h : Traj.init buf = .ok tr) :
+    ∃ hd rest, decodeHeader buf = some (hd, rest) ∧ tr.buf = buf ∧ tr.scale = hd.scale ∧ tr.useYaw = hd.useYaw ∧
+      tr.start = hd.start ∧ tr.headerLength = 9 ∧ buf.drop 9 = rest := by
+  unfold Traj.init at h
+  split at h
+  · cases h
+  · rename_i hlen
+    rcases buf with _ | ⟨f, _ | ⟨x0, _ | ⟨x1, _ | ⟨y0, _ | ⟨y1, _ | ⟨z0, _ | ⟨z1, _ | ⟨w0, _ | ⟨w1, rest⟩⟩⟩⟩⟩⟩⟩⟩⟩ <;>
+      try (simp [headerSize] at hlen; done)
+    have hf : rd (f :: x0 :: x1 :: y0 :: y1 :: z0 :: z1 :: w0 :: w1 :: rest) 0 = .ok f.toNat := by simp [rd]
+    rw [hf] at h
+    simp only [bind, Except.bind] at h
+    rw [parseCoord_of_drop _ _ 1 x0 x1 _ rfl] at h
+    simp only at h
+    rw [parseCoord_of_drop _ _ 3 y0 y1 _ rfl] at h
+    simp only at h
+    rw [parseCoord_of_drop _ _ 5 z0 z1 _ rfl] at h
+    simp only at h
+    rw [parseAngle_of_drop _ 7 w0 w1 _ rfl] at h
+    simp only [pure, Except.pure] at h
+    injection h with h
+    subst h
+    refine ⟨_, rest, rfl, rfl, ?_, ?_, ?_, rfl, rfl⟩
+    · simp only [and7f]
+    · have := and80 f
+      by_cases hlt : f.toNat < 128
+      · have h0 : f.toNat &&& 128 = 0 := this.mpr hlt
+        have : ¬ (f.toNat ≥ 128) := by omega
+        simp [h0, this]
+      · have h0 : ¬ (f.toNat &&& 128 = 0) := fun h => hlt (this.mp h)
+        have : f.toNat ≥ 128 := by omega
+        simp [h0, this]
+    · simp only [and7f]
+
+theorem decodeSegs_length_le (scale : Nat) : ∀ (fd : Nat) (start : Vec4) (rest : Bytes),
+    (decodeSegs scale start rest fd).length ≤ fd := by
+  intro fd
+  induction fd with
+  | zero => intro _ _; simp [decodeSegs]
+  | succ fd ih =>
+    intro start rest
+    unfold decodeSegs
+    split
+    · simp
+    · rename_i s r _
+      simp only [List.length_cons]
+      have := ih (s.endPt start) r
+      omega
+
+theorem gtQ_zero (t : QTime) (ht : t.valid) : gtQ (secExact 0) t = false := by
+  cases t with
+  | nan => exact False.elim ht
+  | pinf => rfl
+  | fin q =>
+    have hq : 0 ≤ q := ht
+    simp only [gtQ, secExact_eq, decide_eq_false_iff_not, not_lt]
+    simpa using hq
+
+/-- **Position.** For every block, the position a fresh player reports at a (clamped, non-NaN) time
+is the point of the Bézier curve of the segment whose span contains it, at the elapsed fraction;
+control points are chained and scaled as the format defines; beyond the end the last end point.
+Hypotheses: segment durations ≥ 1 ms and total duration below 2³² ms. -/
+theorem position_eq_spec (buf : Bytes) (tr : Traj) (hd : HeaderSpec) (segs : List SegSpec)
+    (hinit : Traj.init buf = .ok tr) (hsegs : segmentsOf buf = some (hd, segs))
+    (hdur : ∀ s, s ∈ segs → 1 ≤ s.durMs) (hwrap : totalMs segs < 4294967296)
+    (t : QTime) (ht : t.valid) :
+    (do let p0 ← rewind secExact tr; positionAt secExact p0 t : R (Player × Vec4)).map (·.2)
+      = .ok (posAtQ segs hd.start 0 t) := by
+  obtain ⟨hd', rest, hdec, hbuf, hscale, _, hstart, hhl, hdrop⟩ := init_header buf tr hinit
+  unfold segmentsOf at hsegs
+  rw [hdec] at hsegs
+  injection hsegs with hsegs
+  injection hsegs with h1 h2
+  subst h1
+  have hg := gtQ_zero t ht
+  rw [rewind_eq]
+  simp only [bind, Except.bind]
+  by_cases hz : tr.scale = 0
+  · -- zero scale: no segments, the start point is held
+    have hs0 : hd'.scale = 0 := by rw [← hscale]; exact hz
+    rw [if_pos hs0] at h2
+    subst h2
+    have hb : (trajCur secExact tr).rew = terminalSeg secExact tr.headerLength 0 tr.start := by
+      simp [trajCur, buildSeg, buildSegment, hz]
+    have hc : cseek (trajCur secExact tr) t (seekFuel tr) (terminalSeg secExact tr.headerLength 0 tr.start)
+        = some (terminalSeg secExact tr.headerLength 0 tr.start) := by
+      unfold seekFuel
+      simp only [cseek, trajCur, terminalSeg, hg, endLt]; simp
+    simp only [positionAt, seek, seekLoop_eq_cseek, hb, hc, bind, Except.bind, pure, Except.pure, Except.map]
+    cases t <;> simp [posAtQ, posAt, endOf, terminalSeg, relT, Poly4.const, Poly4.eval, Poly.eval, hstart]
+  · have hs0 : ¬ hd'.scale = 0 := by rw [← hscale]; exact hz
+    rw [if_neg hs0] at h2
+    have hlen9 : 9 ≤ buf.length := by
+      unfold Traj.init at hinit; split at hinit
+      · cases hinit
+      · rename_i h; simp [headerSize] at h; omega
+    have hrl : rest.length ≤ buf.length := by rw [← hdrop]; simp
+    have hsegs' : decodeSegs tr.scale tr.start rest rest.length = segs := by
+      rw [hscale, hstart]; exact h2
+    obtain ⟨s', hs', hv⟩ := seek_pos_spec tr hz t ht rest.length rest 9 0 tr.start (seekFuel tr)
+      (by rw [hbuf]; exact hdrop) (by rw [hbuf]; exact hlen9) (Nat.le_refl _)
+      (by rw [hsegs']; exact hdur) (by rw [hsegs']; simpa using hwrap) hg
+      (by
+        have := decodeSegs_length_le tr.scale rest.length tr.start rest
+        unfold seekFuel; rw [hbuf]; omega)
+    have hrew : (trajCur secExact tr).rew = buildSeg secExact tr 9 0 tr.start := by
+      simp only [trajCur, hhl]
+    simp only [positionAt, seek, seekLoop_eq_cseek, hrew, hs', bind, Except.bind, pure, Except.pure, Except.map]
+    rw [hv, hsegs', hstart]
+
+theorem foldl_u32 (l : List SegSpec) (acc : Nat) (h : acc + totalMs l < 4294967296) :
+    l.foldl (fun a s => u32 (a + s.durMs)) acc = acc + totalMs l := by
+  induction l generalizing acc with
+  | nil => simp [totalMs]
+  | cons s l ih =>
+    simp only [totalMs, List.map_cons, List.sum_cons] at h
+    simp only [List.foldl_cons, totalMs, List.map_cons, List.sum_cons]
+    have h1 : u32 (acc + s.durMs) = acc + s.durMs := Nat.mod_eq_of_lt (by omega)
+    rw [h1]
+    have := ih (acc + s.durMs) (by simp only [totalMs]; omega)
+    simp only [totalMs] at this
+    rw [this]; omega
+
+/-- **Duration.** The player's total duration (hence the trajectory-level millisecond and second
+queries, which call it) is the sum of the segment durations, for every `sec`. -/
+theorem duration_eq_sum (sec : Nat → Rat) (buf : Bytes) (tr : Traj) (hd : HeaderSpec) (segs : List SegSpec)
+    (hinit : Traj.init buf = .ok tr) (hsegs : segmentsOf buf = some (hd, segs))
+    (hwrap : totalMs segs < 4294967296) (p : Player) (hp : p.traj = tr) :
+    (totalDurationMsec sec p).map (·.2) = .ok (totalMs segs) := by
+  obtain ⟨hd', rest, hdec, hbuf, hscale, _, hstart, hhl, hdrop⟩ := init_header buf tr hinit
+  unfold segmentsOf at hsegs
+  rw [hdec] at hsegs
+  injection hsegs with hsegs
+  injection hsegs with h1 h2
+  subst h1
+  simp only [totalDurationMsec, hp, rewind_eq, bind, Except.bind]
+  by_cases hz : tr.scale = 0
+  · have hs0 : hd'.scale = 0 := by rw [← hscale]; exact hz
+    rw [if_pos hs0] at h2
+    subst h2
+    have hb : (trajCur sec tr).rew = terminalSeg sec tr.headerLength 0 tr.start := by
+      simp [trajCur, buildSeg, buildSegment, hz]
+    rw [hb]
+    unfold seekFuel
+    simp [durLoop, Player.hasMore, terminalSeg, totalMs, Except.map]
+  · have hs0 : ¬ hd'.scale = 0 := by rw [← hscale]; exact hz
+    rw [if_neg hs0] at h2
+    have hlen9 : 9 ≤ buf.length := by
+      unfold Traj.init at hinit; split at hinit
+      · cases hinit
+      · rename_i h; simp [headerSize] at h; omega
+    have hsegs' : decodeSegs tr.scale tr.start rest rest.length = segs := by
+      rw [hscale, hstart]; exact h2
+    have hrl : rest.length ≤ buf.length := by rw [← hdrop]; simp
+    obtain ⟨p', hp'⟩ := durLoop_spec sec tr hz rest.length rest 9 0 tr.start (seekFuel tr) 0
+      (by rw [hbuf]; exact hdrop) (by rw [hbuf]; exact hlen9) (Nat.le_refl _)
+      (by
+        have := decodeSegs_length_le tr.scale rest.length tr.start rest
+        unfold seekFuel; rw [hbuf]; omega)
+    have hrew : (trajCur sec tr).rew = buildSeg sec tr 9 0 tr.start := by simp only [trajCur, hhl]
+    rw [hrew, hp', hsegs', foldl_u32 segs 0 (by omega)]
+    simp [Except.map]
+
+/-- yaw control points decoded from the block lie in [0, 360) -/
+theorem yaw_in_range (b0 b1 : UInt8) : 0 ≤ angleOf b0 b1 ∧ angleOf b0 b1 < 360 := by
+  unfold angleOf
+  have h1 : 0 ≤ i16le b0 b1 % 3600 := Int.emod_nonneg _ (by decide)
+  have h2 : i16le b0 b1 % 3600 < 3600 := Int.emod_lt_of_pos _ (by decide)
+  constructor
+  · apply div_nonneg
+    · exact_mod_cast h1
+    · norm_num
+  · rw [div_lt_iff₀ (by norm_num)]
+    have : ((i16le b0 b1 % 3600 : Int) : Rat) < 3600 := by exact_mod_cast h2
+    linarith
+
+/-! ### non-vacuity -/
+
+/-- scale 10, start (1,2,3) yaw 90°, one linear-in-x segment of 1000 ms to x = 5 -/
+def sampleBlock : Bytes := [0x0a, 1, 0, 2, 0, 3, 0, 0x84, 0x03, 0x01, 0xe8, 0x03, 5, 0]
+
+example : ∃ hd segs, segmentsOf sampleBlock = some (hd, segs) ∧ segs.length = 1 ∧
+    (∀ s, s ∈ segs → 1 ≤ s.durMs) ∧ totalMs segs < 4294967296 := by
+  refine ⟨_, _, rfl, ?_, ?_, ?_⟩ <;> simp [sampleBlock, segmentsOf, decodeHeader, decodeSegs, decodeSeg, takeVals,
+    storedPoints, totalMs]
+
+end Sb.C01
